@@ -28,7 +28,7 @@ def alphabets(ctx):
     accel = _pm([0, 1, 2, 3, 5, 6, 7, P27, P27 + 1, 50353403, P30, P30 + 1])
     jerk = _pm([0, 1, 2, 3, 4, 5, 6, 7, 9, 11, 12, 13, 15, 400000, P26, P26 + 1, P26 + 5, P29,
                 P29 + 3])
-    accum = ["clear", 0, 1, P31 - 1]
+    accum = [core.RUNTIME_CLEAR, 0, 1, P31 - 1]
     ticks = 24
     extra = 2
     if ctx.thorough:
